@@ -76,14 +76,25 @@ fn gen_ir_kind(rng: &mut Rng, depth: usize, kind: usize) -> Value {
 
 /// impl-vs-model: the IR of two schema documents and of their intersection (hook `verif_intersect`) against
 /// `Sch.intersect` of the Lean model M7, whose result is proved to mean the conjunction (c06_intersect_sat)
-fn run_isect(case: &Value, tag: usize, rep: &mut Report, mb: &mut ModelBatch) {
+pub fn run_isect(case: &Value, tag: usize, rep: &mut Report, mb: &mut ModelBatch) {
     let mut rng = Rng::new(case["seed"].as_u64().unwrap_or(1));
-    for _ in 0..case["pairs"].as_u64().unwrap_or(20) {
+    for pair_idx in 0..case["pairs"].as_u64().unwrap_or(20) {
         // the second operand is of the first one's kind two times out of three (otherwise most intersections are empty)
         let ka = if rng.chance(1, 3) { 12 } else { rng.below(12) };
-        let a = gen_ir_kind(&mut rng, 0, ka);
+        let mut a = gen_ir_kind(&mut rng, 0, ka);
         let kb = if ka == 12 { 12 } else if ka >= 7 { rng.below(12) } else { ka };
-        let b = if rng.chance(2, 3) { gen_ir_kind(&mut rng, 0, kb) } else { gen_ir_schema(&mut rng, 0) };
+        let mut b = if rng.chance(2, 3) { gen_ir_kind(&mut rng, 0, kb) } else { gen_ir_schema(&mut rng, 0) };
+        if pair_idx < 8 {
+            // directed: tuples of different lengths whose `items` differ, in both orders - each side must be padded
+            // with its *own* items before the positions are intersected
+            let simple = [json!({"type":"string"}), json!({"type":"integer"}), json!({"type":"boolean"}), json!({"type":"null"})];
+            let n_long = 2 + rng.below(2);
+            let pre: Vec<Value> = (0..n_long).map(|_| rng.pick(&simple).clone()).collect();
+            let long = json!({"type":"array","prefixItems": pre,"items": rng.pick(&simple).clone()});
+            let short = match rng.below(3) { 0 => json!({"type":"array","maxItems":4}), 1 => json!({"type":"array","prefixItems":[rng.pick(&simple).clone()],"minItems":1}), _ => json!({"type":"array","prefixItems":[rng.pick(&simple).clone()],"items": rng.pick(&simple).clone()}) };
+            if pair_idx % 2 == 0 { a = long; b = short; } else { a = short; b = long; }
+            rep.count("isect.directed-tuples");
+        }
         rep.evaluations += 1;
         match llguidance::verif::verif_intersect(&a, &b) {
             Ok((da, db, dr)) => {
